@@ -48,7 +48,7 @@ def gen_ref(rng):
 			segs = u'g' + segs
 		return segs + q + f
 	if kind == 6:
-		return rng.choice([u'?y', u'?y=2#s', u'#s', u''])
+		return rng.choice([u'?y', u'?y=2#s', u'#s', u'', rng.choice([u'http', u'g', u'mailto', u'x-y']) + u':' + rng.choice([u'', u'/']) + segs + q + f])
 	return rng.choice(RFC_EXAMPLES)
 
 
@@ -83,15 +83,21 @@ def degenerate(ref):
 	rs, ra, rp, rq, rf = rfc3986.split(ref)
 	if ra is not None and ra.rpartition('@')[2].partition(':')[0] == '':
 		return True      # an authority without a host ("//@/x", "//:80/x")
-	return rq == '' or rf == '' or ra == '' or (rs is not None and ra is None)
+	return rq == '' or rf == '' or ra == ''
+
+
+def rootless_dots(ref):
+	"""F59: a scheme-qualified reference without authority whose path is rootless and has a dot segment"""
+	rs, ra, rp, rq, rf = rfc3986.split(ref)
+	return rs is not None and ra is None and not rp.startswith('/') and any(s in ('.', '..') for s in rp.split('/'))
 
 
 def slash_before_scheme_mark(ref):
-	"""F58: a relative-path reference with "://" in a later segment ("h/http://x"): URI.parse takes everything in front
+	"""F58: a reference with "://" in a later segment ("h/http://x", "mailto:x://y"): URI.parse takes everything in front
 	of the first "://" for a scheme and refuses it (pinned by tests/uri/test_uri_parsing.py::test_invalid_uri_scheme_characters[/])"""
 	r = ref.split('#')[0].split('?')[0]
 	pre, sep, _rest = r.partition('://')
-	return bool(sep) and not r.startswith('/') and '/' in pre
+	return bool(sep) and not r.startswith('/') and ('/' in pre or ':' in pre)
 
 
 def expected(base, ref):
@@ -122,7 +128,7 @@ def oracle(case):
 		except Exception as e:  # F15: hosts with empty/over-long labels cannot be composed; compare tuples only
 			return 'compose raised %s' % exc_name(e)
 	if got.tuple != exp.tuple or text(got) != text(exp):
-		return {'what': 'join differs from RFC 3986 5.2.2 + normalisation', 'base': base, 'ref': ref, 'got': [text(got), list(got.tuple)], 'expected': [text(exp), list(exp.tuple)], 'finding': None}
+		return {'what': 'join differs from RFC 3986 5.2.2 + normalisation', 'base': base, 'ref': ref, 'got': [text(got), list(got.tuple)], 'expected': [text(exp), list(exp.tuple)], 'finding': 'F59' if rootless_dots(ref) else None}
 	return None
 
 
